@@ -34,14 +34,14 @@ def scenarios(ctx: Ctx, res: Result):
         yield gc.scenario(ctx.rng)
 
 
-def run_scenarios(ctx: Ctx, scs, res: Result, sigs, extra=None):
+def run_scenarios(ctx: Ctx, scs, res: Result, sigs, extra=None, at_quiescence='check_converged'):
     runners = []
     for sc in scs:
         r = Runner(sc)
         try:
             r.run()
             if sc['ops'] and sc['ops'][-1] == 'heal':
-                r.check_converged()
+                getattr(r, at_quiescence)()
         except Exception as e:   # an exception escaping a component is itself a finding of the run
             r.fail('component-raised', f"{e.__class__.__name__}: {e}")
         keys_s = {(ph, p['name']) for ph, ps in sc['phens'] for p in ps if p.get('singleton')}
